@@ -47,6 +47,31 @@ func (g *Gen) havocResults(name string, sig *types.Signature, st *State) []Term 
 	return res
 }
 
+// plainResults: the results of a call to fn are not interior references,
+// unless the taint analysis says fn may return one (fn == nil: a dependency
+// or dynamic callee — by assumption its results are not interior references
+// into /repo objects, unless some in-repo method of that name may return one).
+func (g *Gen) plainResults(res []Term, sig *types.Signature, fn *ssa.Function, method string) {
+	t := g.prog.interiorTaint(g.u)
+	if fn != nil && t.rets[fn] {
+		return
+	}
+	if fn == nil && method != "" {
+		for f, bad := range t.rets {
+			if bad && f.Name() == method {
+				return
+			}
+		}
+	}
+	for i, rt := range resultTypes(sig) {
+		if i < len(res) {
+			if f := g.u.plainFact(res[i], rt); f != "" {
+				g.assert(f)
+			}
+		}
+	}
+}
+
 // call handles a Call (or deferred call executed at RunDefers).
 func (g *Gen) call(v ssa.Value, c *ssa.CallCommon, st *State) *State {
 	// interior pointers to by-value aggregates passed as arguments are passed
@@ -456,7 +481,16 @@ func (g *Gen) applyContractRes(v ssa.Value, con *spec.FuncContract, sig *types.S
 		short = short[i+1:]
 	}
 	preUnproved := false
+	if g.rootGen().umode && len(con.Requires) > 0 {
+		// unconditional pass: callee preconditions are neither checked (that is
+		// the conditional pass's obligation) nor relied upon — only the callee's
+		// own unconditional guarantees are used
+		preUnproved = true
+	}
 	for _, r := range con.Requires {
+		if g.rootGen().umode {
+			break
+		}
 		goal := g.evalBool(pre, r.Expr, r.Src)
 		label := sanitize(short) + "." + r.Label
 		if SkipClauses[g.rootGen().name+"#pre."+label] {
@@ -484,6 +518,20 @@ func (g *Gen) applyContractRes(v ssa.Value, con *spec.FuncContract, sig *types.S
 		}
 	}
 	res := g.havocResults(short, sig, post)
+	{
+		var cfn *ssa.Function
+		meth := ""
+		if con.Iface {
+			if i := strings.LastIndex(con.Name, "."); i >= 0 {
+				meth = con.Name[i+1:]
+			}
+		} else if !strings.Contains(con.Name, "@") && !strings.HasPrefix(con.Name, "field ") {
+			cfn = g.prog.LookupFunc(con)
+		}
+		if cfn != nil || meth != "" {
+			g.plainResults(res, sig, cfn, meth)
+		}
+	}
 	env := mkEnv(post, st)
 	for i, r := range con.Results {
 		if i < len(res) && r != "_" {
@@ -526,6 +574,23 @@ func (g *Gen) applyContractRes(v ssa.Value, con *spec.FuncContract, sig *types.S
 		}
 		t := g.evalBool(env, e.Expr, e.Src)
 		g.assert(fmt.Sprintf("(=> %s %s)", g.guarded(g.reach[g.curBlock]), t))
+	}
+	for _, e := range con.Guarantees {
+		// proved without the callee's preconditions: usable at every call
+		if verified {
+			cn := name + "#gpost." + e.Label
+			if SkipClauses[cn] {
+				continue
+			}
+			g.usedClauses[cn] = true
+		}
+		t := g.evalBool(env, e.Expr, e.Src)
+		g.assert(fmt.Sprintf("(=> %s %s)", g.reach[g.curBlock], t))
+	}
+	for _, e := range con.Assumes {
+		g.assumed[con.Pkg+"::"+con.Name+" (assumed clause "+e.Label+")"] = true
+		t := g.evalBool(env, e.Expr, e.Src)
+		g.assert(fmt.Sprintf("(=> %s %s)", g.reach[g.curBlock], t))
 	}
 	g.bindResults(v, res)
 	return post, res
@@ -684,7 +749,16 @@ func (g *Gen) unknownCall(v ssa.Value, name string, sig *types.Signature, args [
 		post = g.havocSet(st, mods, "x")
 		g.external[name] = true
 	}
+	// a dependency package that is modelled by ghost state (e.g. the sequence
+	// model of container/list): a function of that package without a contract
+	// may change the model arbitrarily
+	if mg := g.prog.modelGhosts(g.u, fn); len(mg) > 0 {
+		post = g.havocSet(post, mg, "mg")
+	}
 	res := g.havocResults(name, sig, post)
+	if fn != nil {
+		g.plainResults(res, sig, fn, "")
+	}
 	g.bindResults(v, res)
 	return post
 }
